@@ -444,6 +444,28 @@ func runC11(k int, rng *Rng) CaseResult {
 		w.ReadSweep()
 		w.SearchSweep(20)
 	}
+	// the same on a running handle: an object this handle has served (cached, when caching is on)
+	// loses its file; after Control has reported it and Repair has run, no read knows it any more
+	if live := w.m.Live(); !w.failed() && len(live) > 0 && cfg.Async == 0 && rng.P(0.5) {
+		u := pick(rng, live)
+		w.call("GetByUUID", func() { w.db.GetByUUID(&Rec{}, u) })
+		os.Remove(filepath.Join(w.collDir(), u+suffix))
+		w.logf("file of %s removed behind the running handle", w.name(u))
+		w.call("Control", func() { err = w.db.Control() })
+		if !sod.IsIndexCorrupted(err) {
+			w.fail("divergence-undetected", "Control(running handle)", "rmfile", fmt.Sprintf("err=%v", err))
+		}
+		w.call("Repair", func() { err = w.db.Repair(&Rec{}) })
+		if err != nil && !w.failed() {
+			w.fail("repair-error", "Repair", "running-handle", err.Error())
+		}
+		if !w.failed() {
+			w.m.Delete(u)
+			w.abs("rmfile-live")
+			w.ReadSweep()
+			w.SearchSweep(15)
+		}
+	}
 	return w.finish(w.absOps, len(faults) > 0, c11Sample(k, cfg, faults, w))
 }
 
